@@ -972,7 +972,7 @@ bool readerSurvivesLayerThenCorners(const std::string& file) {
 }
 
 void checkEgrid(Monitor& m, Rng& rng, const CaseSpec& cs, const Opm::EclipseGrid& g, const std::string& form, const Geo& refSI,
-                const std::vector<Opm::NNCdata>& nnc, const std::string& nncSource, const std::string& dir, long idx, Opm::Parser& parser, bool allCombos) {
+                const std::vector<Opm::NNCdata>& nnc, const std::string& nncSource, const std::string& dir, long idx, Opm::Parser& parser, bool allCombos, bool orderProbe) {
     const Base& b = cs.base;
     const size_t n = b.ncell();
     for (int f = 0; f < 2; ++f) for (int su = 0; su < 3; ++su) {
@@ -1079,10 +1079,10 @@ void checkEgrid(Monitor& m, Rng& rng, const CaseSpec& cs, const Opm::EclipseGrid
                 if (!formatted) {
                     Opm::EclIO::EGrid eg2(file);      // a reader of its own: see readerSurvivesLayerThenCorners()
                     for (int k = 0; k < b.nz; ++k) for (int bot = 0; bot < 2; ++bot) layers.push_back(eg2.getXYZ_layer(k, bot == 1));
-                    if (idx % 4 == 0 && !readerSurvivesLayerThenCorners(file))
+                    if (orderProbe && idx % 4 == 0 && !readerSurvivesLayerThenCorners(file))
                         m.viol("egrid:reader-crash-corners-after-layer", combo + ": EclIO::EGrid::getXYZ_layer() followed by getCellCorners() on the same object kills the process "
                                "(getXYZ_layer fills coord_array only, getCellCorners then indexes the empty zcorn_array)");
-                    if (idx % 4 == 0) m.count("egrid_reader_call_order_probes");
+                    if (orderProbe && idx % 4 == 0) m.count("egrid_reader_call_order_probes");
                 }
                 for (size_t c = 0; c < n; ++c) {
                     std::array<double, 8> X, Y, Z;
@@ -1150,6 +1150,7 @@ int main(int argc, char** argv) {
     const int big = (int)args.geti("big", thorough ? 40 : 24);   // occasional larger grids (threads need work to share)
     const long maxRefined = args.geti("max_refined", thorough ? 20000 : 5000);
     const bool topsGaps = args.geti("tops_gaps", 1) != 0;
+    const bool orderProbe = args.geti("reader_order_probe", 1) != 0;
     const std::string dir = vh::scratch_dir(args);
     Opm::Parser parser;
     omp_set_dynamic(0);
@@ -1285,7 +1286,7 @@ int main(int argc, char** argv) {
             } catch (const std::exception& e) { m.viol("exception:NNC", std::string("NNC construction throws: ") + e.what()); }
             rep.cover("nnc_source", src + (nnc.empty() ? " (empty)" : ""));
             rep.cover("egrid_saved_from", deckFormName);
-            checkEgrid(m, rng, cs, *deckForm, deckFormName, si, nnc, src, dir, idx, parser, b.ncell() <= 400);
+            checkEgrid(m, rng, cs, *deckForm, deckFormName, si, nnc, src, dir, idx, parser, b.ncell() <= 400, orderProbe);
         }
 
         // ---- evidence
